@@ -173,6 +173,17 @@ func (r *Runner) traceObs(obs map[int][]sim.Obs) {
 
 // Join attaches a new puppet and lets the monitor check the join.
 func (r *Runner) Join(ps PuppetSetup) *sim.Puppet {
+	p, _ := r.join(ps)
+	return p
+}
+
+// JoinObs is Join returning everything every puppet observed during the join.
+func (r *Runner) JoinObs(ps PuppetSetup) map[int][]sim.Obs {
+	_, obs := r.join(ps)
+	return obs
+}
+
+func (r *Runner) join(ps PuppetSetup) (*sim.Puppet, map[int][]sim.Obs) {
 	p := r.W.AddPuppet(sim.PuppetSpec{Kind: ps.Kind, QSize: ps.QSize, TransportDetails: ps.TDetails})
 	r.Setups = append(r.Setups, ps)
 	hello := ps.hello()
@@ -191,11 +202,14 @@ func (r *Runner) Join(ps PuppetSetup) *sim.Puppet {
 		}
 	}
 	r.Mon.ObserveJoin(op, model.JoinInfo{Idx: p.Idx, Realm: ps.Realm, Kind: ps.Kind, Hello: hello, Welcome: welcome}, obs)
-	return p
+	return p, obs
 }
 
 // Exec performs one op and checks it.
-func (r *Runner) Exec(op model.Op) {
+func (r *Runner) Exec(op model.Op) { r.ExecObs(op) }
+
+// ExecObs performs one op, checks it and returns what every puppet observed.
+func (r *Runner) ExecObs(op model.Op) map[int][]sim.Obs {
 	r.C.Tracef("[%d] %v", r.Steps, op)
 	r.Steps++
 	switch op.Kind {
@@ -226,6 +240,7 @@ func (r *Runner) Exec(op model.Op) {
 	obs := r.collect()
 	r.traceObs(obs)
 	r.Mon.Observe(op, obs)
+	return obs
 }
 
 // Finish tears the world down and reports close/leak findings as rule ids.
